@@ -810,7 +810,8 @@ Section Global2.
     pose proof (asm_bilinear RthR g Me bcd x one_k one_k) as Hbil.
     rewrite Hndof, (elemnodes_2d g Hwf H2d) in Hbil.
     replace (Z.to_nat (4 * Z.of_nat nd)) with (4 * nd)%nat in Hbil by lia.
-    unfold N. rewrite Hbil; auto; try lia; try (apply nodal_field_length; lia).
+    unfold N. rewrite Hbil; auto; try lia; try (apply nodal_field_length; lia);
+      try (replace (Z.to_nat (4 * Z.of_nat nd)) with (4 * nd)%nat by lia; exact Hsh).
     rewrite (nsum_map_ext _ (fun p => snd p * (mp * (hx * hy * hz)))).
     - rewrite nsum_combine_const by (rewrite dofconn_all_length; symmetry; exact Hxl). ring.
     - intros [row xe] Hin. cbn [fst snd]. apply in_combine_l in Hin. unfold dofconn_all in Hin.
@@ -872,3 +873,299 @@ Section Global2.
       rewrite poisson2_linear_energy by assumption. reflexivity.
   Qed.
 End Global2.
+
+(* ================================================================== global theorems, 3-D *)
+Section Global3.
+  Variables (g : grid) (s3 hx hy hz : R).
+  Hypothesis Hwf : wf g.
+  Hypothesis H3d : nelz g <> 0%Z.
+  Hypothesis Hx : hx <> 0.
+  Hypothesis Hy : hy <> 0.
+  Hypothesis Hz : hz <> 0.
+  Let h := [hx; hy; hz].
+  Let cx (e : Z) := hx * (IZR (elem_i g e) + 1 / 2).
+  Let cy (e : Z) := hy * (IZR (elem_j g e) + 1 / 2).
+  Let cz (e : Z) := hz * (IZR (elem_k g e) + 1 / 2).
+
+  Lemma nelz_eqb : Z.eqb (nelz g) 0 = false.
+  Proof. apply Z.eqb_neq. exact H3d. Qed.
+
+  (* u(n) = t + w x pos(n) *)
+  Definition rigid_field3 (tx ty tz wx wy wz : R) (n d : Z) : R :=
+    let x := hx * IZR (node_i g n) in let y := hy * IZR (node_j g n) in let z := hz * IZR (node_k g n) in
+    if Z.eqb d 0 then tx + wy * z - wz * y else if Z.eqb d 1 then ty + wz * x - wx * z else tz + wx * y - wy * x.
+
+  Lemma gather_rigid3 tx ty tz wx wy wz e : (0 <= e < nel g)%Z ->
+    gatherZ (nodal_field g 3 (rigid_field3 tx ty tz wx wy wz)) (dofconn g 3 e)
+    = rigid3 h tx ty tz wx wy wz (cx e) (cy e) (cz e).
+  Proof.
+    intros He. rewrite gather_nodal_field by (auto; lia).
+    rewrite flat_map_concat_map. unfold rigid_field3. change (zrange 3) with [0%Z; 1%Z; 2%Z].
+    rewrite (conn_map_ijk g e (fun i j k => map (fun d =>
+       if Z.eqb d 0 then tx + wy * (hz * IZR k) - wz * (hy * IZR j)
+       else if Z.eqb d 1 then ty + wz * (hx * IZR i) - wx * (hz * IZR k)
+       else tz + wx * (hy * IZR j) - wy * (hx * IZR i)) [0%Z; 1%Z; 2%Z]) Hwf He).
+    rewrite nelz_eqb. unfold rigid3, h, nodepos, cx, cy, cz.
+    cbn -[Rmult Rplus Rdiv Rminus IZR Rinv Ropp elem_i elem_j elem_k Z.add].
+    rewrite !plus_IZR. repeat (apply (f_equal2 (@cons R)); [field|]). reflexivity.
+  Qed.
+
+  Theorem stiffness3_global_rigid_null E nu mode bcd x tx ty tz wx wy wz :
+    let Ke := stiffness_element s3 3 h E nu mode in
+    let N := Z.to_nat (asm_n g 3) in
+    apply (to_triples (asm_ztriples g Ke None bcd x)) N (nodal_field g 3 (rigid_field3 tx ty tz wx wy wz)) = vzero N.
+  Proof.
+    intros Ke N.
+    pose proof (stiffness3_shape s3 hx hy hz E nu mode) as Hsh. fold h in Hsh. fold Ke in Hsh.
+    assert (Hndof : asm_ndof g Ke = 3%Z).
+    { unfold asm_ndof. destruct Hsh as [L1 L2]. rewrite (hd_length 23 24 Ke L1 L2), (elemnodes_3d g Hwf H3d). reflexivity. }
+    pose proof (asm_apply_null RthR g Ke bcd x (nodal_field g 3 (rigid_field3 tx ty tz wx wy wz))) as Hnull.
+    rewrite Hndof, (elemnodes_3d g Hwf H3d) in Hnull. apply Hnull; auto; try lia.
+    intros row Hrow. unfold dofconn_all in Hrow. apply in_map_iff in Hrow as (e & <- & He). apply in_zrange in He.
+    rewrite gather_rigid3 by exact He. apply stiffness3_rigid_null; assumption.
+  Qed.
+
+  Lemma gather_dir3 nd k e : (0 <= k)%Z -> (0 <= e < nel g)%Z ->
+    gatherZ (nodal_field g (Z.of_nat nd) (dir_field k)) (dofconn g (Z.of_nat nd) e) = dirvec nd 8 (Z.to_nat k).
+  Proof.
+    intros Hk He. rewrite gather_nodal_field by (auto; lia).
+    unfold dir_field. rewrite (flat_map_ext _ (fun _ => unitv nd (Z.to_nat k))) by (intros; apply unitv_zrange; exact Hk).
+    rewrite flat_map_const_concat, conn_length by exact Hwf. rewrite (elemnodes_3d g Hwf H3d). reflexivity.
+  Qed.
+
+  Theorem mass3_global_total mp nd k bcd x : (1 <= nd)%nat -> (k < nd)%nat -> length x = Z.to_nat (nel g) ->
+    let Me := mass_element s3 3 h mp nd in
+    let N := Z.to_nat (asm_n g (Z.of_nat nd)) in
+    let one_k := nodal_field g (Z.of_nat nd) (dir_field (Z.of_nat k)) in
+    dot one_k (apply (to_triples (asm_ztriples g Me None bcd x)) N one_k) = mp * (hx * hy * hz) * nsum x.
+  Proof.
+    intros Hnd Hk Hxl Me N one_k.
+    assert (Hsh : mshape (8 * nd) (8 * nd) Me) by exact (mass_shape s3 3 h mp nd).
+    assert (Hndof : asm_ndof g Me = Z.of_nat nd).
+    { unfold asm_ndof. destruct Hsh as [L1 L2].
+      rewrite (hd_length (8 * nd - 1) (8 * nd) Me) by (try exact L2; rewrite L1; lia).
+      rewrite (elemnodes_3d g Hwf H3d). rewrite Nat2Z.inj_mul, Z.mul_comm. apply Z.div_mul. lia. }
+    assert (Hnn : (0 <= nnodes g)%Z) by (destruct Hwf as (?&?&?); unfold nnodes; nia).
+    pose proof (asm_bilinear RthR g Me bcd x one_k one_k) as Hbil.
+    rewrite Hndof, (elemnodes_3d g Hwf H3d) in Hbil.
+    replace (Z.to_nat (8 * Z.of_nat nd)) with (8 * nd)%nat in Hbil by lia.
+    unfold N. rewrite Hbil; auto; try lia; try (apply nodal_field_length; lia);
+      try (replace (Z.to_nat (8 * Z.of_nat nd)) with (8 * nd)%nat by lia; exact Hsh).
+    rewrite (nsum_map_ext _ (fun p => snd p * (mp * (hx * hy * hz)))).
+    - rewrite nsum_combine_const by (rewrite dofconn_all_length; symmetry; exact Hxl). ring.
+    - intros [row xe] Hin. cbn [fst snd]. apply in_combine_l in Hin. unfold dofconn_all in Hin.
+      apply in_map_iff in Hin as (e & <- & He). apply in_zrange in He.
+      unfold one_k. rewrite gather_dir3 by (auto; lia). rewrite Nat2Z.id.
+      fold (quad Me (dirvec nd 8 k)). unfold Me, h. rewrite mass3_total by assumption. reflexivity.
+  Qed.
+
+  Definition lin_field3 (c0 gx gy gz : R) (n d : Z) : R :=
+    c0 + gx * (hx * IZR (node_i g n)) + gy * (hy * IZR (node_j g n)) + gz * (hz * IZR (node_k g n)).
+
+  Lemma gather_lin3 c0 gx gy gz e : (0 <= e < nel g)%Z ->
+    gatherZ (nodal_field g 1 (lin_field3 c0 gx gy gz)) (dofconn g 1 e)
+    = linfield3 h (c0 + gx * cx e + gy * cy e + gz * cz e) gx gy gz.
+  Proof.
+    intros He. rewrite gather_nodal_field by (auto; lia).
+    rewrite flat_map_concat_map. unfold lin_field3. change (zrange 1) with [0%Z].
+    rewrite (conn_map_ijk g e (fun i j k => map (fun d : Z => c0 + gx * (hx * IZR i) + gy * (hy * IZR j) + gz * (hz * IZR k)) [0%Z]) Hwf He).
+    rewrite nelz_eqb. unfold linfield3, h, nodepos, cx, cy, cz.
+    cbn -[Rmult Rplus Rdiv Rminus IZR Rinv Ropp elem_i elem_j elem_k Z.add].
+    rewrite !plus_IZR. repeat (apply (f_equal2 (@cons R)); [field|]). reflexivity.
+  Qed.
+
+  Lemma poisson3_ndof mp : asm_ndof g (poisson_element s3 3 h mp) = 1%Z.
+  Proof.
+    pose proof (poisson_shape s3 3 h mp) as [L1 L2]. unfold asm_ndof.
+    rewrite (hd_length 7 _ _ L1 L2), (elemnodes_3d g Hwf H3d). reflexivity.
+  Qed.
+
+  Theorem poisson3_global_constants mp bcd x c0 :
+    let Pe := poisson_element s3 3 h mp in
+    let N := Z.to_nat (asm_n g 1) in
+    apply (to_triples (asm_ztriples g Pe None bcd x)) N (nodal_field g 1 (lin_field3 c0 0 0 0)) = vzero N.
+  Proof.
+    intros Pe N.
+    pose proof (asm_apply_null RthR g Pe bcd x (nodal_field g 1 (lin_field3 c0 0 0 0))) as Hnull.
+    unfold Pe in Hnull. rewrite poisson3_ndof, (elemnodes_3d g Hwf H3d) in Hnull. apply Hnull; auto; try lia.
+    - apply (poisson_shape s3 3 h mp).
+    - intros row Hrow. unfold dofconn_all in Hrow. apply in_map_iff in Hrow as (e & <- & He). apply in_zrange in He.
+      rewrite gather_lin3 by exact He. apply poisson3_constants; assumption.
+  Qed.
+
+  Theorem poisson3_global_linear_energy mp bcd x c0 gx gy gz : length x = Z.to_nat (nel g) ->
+    let Pe := poisson_element s3 3 h mp in
+    let N := Z.to_nat (asm_n g 1) in
+    let u := nodal_field g 1 (lin_field3 c0 gx gy gz) in
+    dot u (apply (to_triples (asm_ztriples g Pe None bcd x)) N u)
+    = mp * (hx * hy * hz) * (gx * gx + gy * gy + gz * gz) * nsum x.
+  Proof.
+    intros Hxl Pe N u.
+    assert (Hnn : (0 <= nnodes g)%Z) by (destruct Hwf as (?&?&?); unfold nnodes; nia).
+    pose proof (asm_bilinear RthR g Pe bcd x u u) as Hbil.
+    unfold Pe in Hbil. rewrite poisson3_ndof, (elemnodes_3d g Hwf H3d) in Hbil. fold Pe in Hbil. unfold N.
+    rewrite Hbil; auto; try lia; try (apply nodal_field_length; lia); try (apply (poisson_shape s3 3 h mp)).
+    rewrite (nsum_map_ext _ (fun p => snd p * (mp * (hx * hy * hz) * (gx * gx + gy * gy + gz * gz)))).
+    - rewrite nsum_combine_const by (rewrite dofconn_all_length; symmetry; exact Hxl). ring.
+    - intros [row xe] Hin. cbn [fst snd]. apply in_combine_l in Hin. unfold dofconn_all in Hin.
+      apply in_map_iff in Hin as (e & <- & He). apply in_zrange in He.
+      unfold u. rewrite gather_lin3 by exact He.
+      fold (quad Pe (linfield3 h (c0 + gx * cx e + gy * cy e + gz * cz e) gx gy gz)). unfold Pe, h.
+      rewrite poisson3_linear_energy by assumption. reflexivity.
+  Qed.
+End Global3.
+
+(* ================================================================== summary theorems *)
+Close Scope R_scope.
+Section Summary.
+  Context {K : Type} `{Num K}.
+  Hypothesis Rth : ring_theory (@nzero K _) none_ nadd nmul nsub nopp (@eq K).
+  Local Open Scope num_scope.
+
+  (* the well-formedness conditions under which the module constructs a matrix (cf. asm_status) *)
+  Definition asm_wf (g : grid) (elmat : list (list K)) (bc : option (list Z)) (cst : list (@ztriple K)) (x : list K) : Prop :=
+    let ndof := asm_ndof g elmat in
+    let m := Z.to_nat (elemnodes g * ndof) in
+    wf g /\ (0 <= ndof)%Z /\ mshape m m elmat /\ length x = Z.to_nat (nel g) /\
+    match bc with None => True | Some bcl => Forall (fun b => (0 <= b < asm_n g ndof)%Z) bcl end /\
+    zbounded (asm_n g ndof) cst.
+
+  (* entry formula, stated on the dense matrix SparseLin gives to the triple list *)
+  Theorem asm_dense_entry g elmat bc bcdiagval cst x i j :
+    let ndof := asm_ndof g elmat in
+    let N := Z.to_nat (asm_n g ndof) in
+    asm_wf g elmat bc cst x -> (0 <= i < asm_n g ndof)%Z -> (0 <= j < asm_n g ndof)%Z ->
+    nth (Z.to_nat j) (nth (Z.to_nat i) (dense (to_triples (asm_matrix g elmat bc bcdiagval cst x)) N N) []) nzero
+    = asm_spec g elmat bc bcdiagval cst x i j.
+  Proof.
+    intros ndof N (Hwf & Hn & Hsh & Hx & Hbc & Hcst) Hi Hj.
+    rewrite dense_nth by (unfold N; lia).
+    rewrite (tentry_zentry _ (asm_n g ndof)) by (try lia; apply asm_zbounded; assumption).
+    apply (asm_entry_formula Rth); [exact Hsh | apply dofconn_all_shape; assumption | rewrite dofconn_all_length; exact Hx].
+  Qed.
+
+  Theorem asm_symmetric g elmat bc bcdiagval cst x i j :
+    asm_wf g elmat bc cst x -> msym elmat -> (forall p q, zentry cst p q = zentry cst q p) ->
+    zentry (asm_matrix g elmat bc bcdiagval cst x) i j = zentry (asm_matrix g elmat bc bcdiagval cst x) j i.
+  Proof.
+    intros (Hwf & Hn & Hsh & Hx & Hbc & Hcst) Hs Hc.
+    rewrite !(asm_entry_formula Rth) by (try exact Hsh; try (apply dofconn_all_shape; assumption); rewrite dofconn_all_length; exact Hx).
+    apply (asm_spec_sym Rth); assumption.
+  Qed.
+End Summary.
+
+Open Scope R_scope.
+Theorem asm_psd g (elmat : list (list R)) bcd x u :
+  let ndof := asm_ndof g elmat in
+  let N := Z.to_nat (asm_n g ndof) in
+  asm_wf g elmat None [] x -> length u = N ->
+  (forall v, 0 <= quad elmat v) -> Forall (fun xe => 0 <= xe) x ->
+  0 <= dot u (apply (to_triples (asm_ztriples g elmat None bcd x)) N u).
+Proof.
+  intros ndof N (Hwf & Hn & Hsh & Hx & _ & _) Hu Hq Hpos.
+  unfold N, ndof. rewrite (asm_bilinear RthR) by assumption.
+  apply nsum_nonneg. intros [row xe] Hin. cbn [fst snd]. unfold nmul; cbn [NumR].
+  apply Rmult_le_pos; [|apply Hq].
+  rewrite Forall_forall in Hpos. apply Hpos. eapply in_combine_r; exact Hin.
+Qed.
+
+(* constrained / free dofs, for boundary-condition lists without repetition *)
+Lemma asm_spec_constrained g (elmat : list (list R)) bcl bcdiagval cst x i j : NoDup bcl -> isin i bcl = true ->
+  asm_spec g elmat (Some bcl) bcdiagval cst x i j = (if Z.eqb i j then bcdiagval else 0) + zentry cst i j.
+Proof.
+  intros Hnd Hi. unfold asm_spec. rewrite Hi. cbn [orb]. rewrite (bc_count_nodup RthR) by exact Hnd. rewrite Hi.
+  rnum. destruct (Z.eqb i j); lra.
+Qed.
+
+Lemma asm_spec_constrained_col g (elmat : list (list R)) bcl bcdiagval cst x i j : NoDup bcl -> isin j bcl = true ->
+  asm_spec g elmat (Some bcl) bcdiagval cst x i j = (if Z.eqb i j then bcdiagval else 0) + zentry cst i j.
+Proof.
+  intros Hnd Hj. unfold asm_spec. rewrite Hj, orb_true_r. rewrite (bc_count_nodup RthR) by exact Hnd.
+  destruct (Z.eqb_spec i j) as [->|Hne]; [rewrite Hj; rnum; lra | rnum; lra].
+Qed.
+
+Lemma asm_spec_free g (elmat : list (list R)) bcl bcdiagval cst x i j : NoDup bcl ->
+  isin i bcl = false -> isin j bcl = false ->
+  asm_spec g elmat (Some bcl) bcdiagval cst x i j = asm_spec g elmat None bcdiagval cst x i j.
+Proof.
+  intros Hnd Hi Hj. unfold asm_spec. rewrite Hi, Hj. cbn [orb]. rewrite (bc_count_nodup RthR) by exact Hnd. rewrite Hi.
+  rnum. destruct (Z.eqb i j); lra.
+Qed.
+
+(* ---- the three FE matrices satisfy the well-formedness conditions of the assembly ---- *)
+Definition bc_ok (g : grid) (ndof : Z) (bc : option (list Z)) : Prop :=
+  match bc with None => True | Some bcl => Forall (fun b => (0 <= b < asm_n g ndof)%Z) bcl end.
+
+Lemma stiffness2_asm_wf g (s3 hx hy hz E nu : R) mode bc cst x : wf g -> nelz g = 0%Z -> (mode = 0 \/ mode = 1)%Z ->
+  length x = Z.to_nat (nel g) -> bc_ok g 2 bc -> zbounded (asm_n g 2) cst ->
+  asm_wf g (stiffness_element s3 2 [hx; hy; hz] E nu mode) bc cst x /\
+  asm_ndof g (stiffness_element s3 2 [hx; hy; hz] E nu mode) = 2%Z.
+Proof.
+  intros Hwf H2d Hmode Hx Hbc Hcst.
+  pose proof (stiffness2_shape s3 hx hy hz E nu mode) as Hsh.
+  assert (Hndof : asm_ndof g (stiffness_element s3 2 [hx; hy; hz] E nu mode) = 2%Z).
+  { unfold asm_ndof. destruct Hsh as [L1 L2]. rewrite (hd_length 7 8 _ L1 L2), (elemnodes_2d g Hwf H2d). reflexivity. }
+  split; [|exact Hndof]. unfold asm_wf. rewrite Hndof, (elemnodes_2d g Hwf H2d).
+  refine (conj Hwf (conj _ (conj _ (conj Hx (conj Hbc Hcst))))); [lia | exact Hsh].
+Qed.
+
+Lemma stiffness3_asm_wf g (s3 hx hy hz E nu : R) mode bc cst x : wf g -> nelz g <> 0%Z ->
+  length x = Z.to_nat (nel g) -> bc_ok g 3 bc -> zbounded (asm_n g 3) cst ->
+  asm_wf g (stiffness_element s3 3 [hx; hy; hz] E nu mode) bc cst x /\
+  asm_ndof g (stiffness_element s3 3 [hx; hy; hz] E nu mode) = 3%Z.
+Proof.
+  intros Hwf H3d Hx Hbc Hcst.
+  pose proof (stiffness3_shape s3 hx hy hz E nu mode) as Hsh.
+  assert (Hndof : asm_ndof g (stiffness_element s3 3 [hx; hy; hz] E nu mode) = 3%Z).
+  { unfold asm_ndof. destruct Hsh as [L1 L2]. rewrite (hd_length 23 24 _ L1 L2), (elemnodes_3d g Hwf H3d). reflexivity. }
+  split; [|exact Hndof]. unfold asm_wf. rewrite Hndof, (elemnodes_3d g Hwf H3d).
+  refine (conj Hwf (conj _ (conj _ (conj Hx (conj Hbc Hcst))))); [lia | exact Hsh].
+Qed.
+
+(* K symmetric (any bc list, any symmetric constant), 2-D and 3-D *)
+Theorem stiffness2_global_symmetric g (s3 hx hy hz E nu : R) mode bc (bcd : R) cst x i j :
+  wf g -> nelz g = 0%Z -> (mode = 0 \/ mode = 1)%Z -> length x = Z.to_nat (nel g) -> bc_ok g 2 bc ->
+  zbounded (asm_n g 2) cst -> (forall p q, zentry cst p q = zentry cst q p) ->
+  let A := asm_matrix g (stiffness_element s3 2 [hx; hy; hz] E nu mode) bc bcd cst x in
+  zentry A i j = zentry A j i.
+Proof.
+  intros Hwf H2d Hmode Hx Hbc Hcst Hsym A.
+  apply (asm_symmetric RthR); [apply stiffness2_asm_wf; assumption | apply stiffness2_sym; exact Hmode | exact Hsym].
+Qed.
+
+Theorem stiffness3_global_symmetric g (s3 hx hy hz E nu : R) mode bc (bcd : R) cst x i j :
+  wf g -> nelz g <> 0%Z -> length x = Z.to_nat (nel g) -> bc_ok g 3 bc ->
+  zbounded (asm_n g 3) cst -> (forall p q, zentry cst p q = zentry cst q p) ->
+  let A := asm_matrix g (stiffness_element s3 3 [hx; hy; hz] E nu mode) bc bcd cst x in
+  zentry A i j = zentry A j i.
+Proof.
+  intros Hwf H3d Hx Hbc Hcst Hsym A.
+  apply (asm_symmetric RthR); [apply stiffness3_asm_wf; assumption | apply stiffness3_sym | exact Hsym].
+Qed.
+
+(* u^T K u >= 0 for x >= 0 *)
+Theorem stiffness2_global_psd g (s3 hx hy hz E nu : R) mode (bcd : R) x u :
+  wf g -> nelz g = 0%Z -> (mode = 0 \/ mode = 1)%Z -> length x = Z.to_nat (nel g) ->
+  0 <= hx -> 0 <= hy -> 0 <= hz -> 0 <= E -> (mode = 0%Z -> -1 < nu < 1/2) -> (mode = 1%Z -> -1 < nu < 1) ->
+  Forall (fun xe => 0 <= xe) x -> length u = Z.to_nat (asm_n g 2) ->
+  0 <= dot u (apply (to_triples (asm_ztriples g (stiffness_element s3 2 [hx; hy; hz] E nu mode) None bcd x))
+                    (Z.to_nat (asm_n g 2)) u).
+Proof.
+  intros Hwf H2d Hmode Hx Px Py Pz PE N0 N1 Hpos Hu.
+  destruct (stiffness2_asm_wf g s3 hx hy hz E nu mode None [] x Hwf H2d Hmode Hx I (Forall_nil _)) as [W Hndof].
+  pose proof (asm_psd g (stiffness_element s3 2 [hx; hy; hz] E nu mode) bcd x u) as P.
+  rewrite Hndof in P. apply P; auto. intros v. apply stiffness2_psd; assumption.
+Qed.
+
+Theorem stiffness3_global_psd g (s3 hx hy hz E nu : R) mode (bcd : R) x u :
+  wf g -> nelz g <> 0%Z -> length x = Z.to_nat (nel g) ->
+  0 <= hx -> 0 <= hy -> 0 <= hz -> 0 <= E -> -1 < nu < 1/2 ->
+  Forall (fun xe => 0 <= xe) x -> length u = Z.to_nat (asm_n g 3) ->
+  0 <= dot u (apply (to_triples (asm_ztriples g (stiffness_element s3 3 [hx; hy; hz] E nu mode) None bcd x))
+                    (Z.to_nat (asm_n g 3)) u).
+Proof.
+  intros Hwf H3d Hx Px Py Pz PE N0 Hpos Hu.
+  destruct (stiffness3_asm_wf g s3 hx hy hz E nu mode None [] x Hwf H3d Hx I (Forall_nil _)) as [W Hndof].
+  pose proof (asm_psd g (stiffness_element s3 3 [hx; hy; hz] E nu mode) bcd x u) as P.
+  rewrite Hndof in P. apply P; auto. intros v. apply stiffness3_psd; assumption.
+Qed.
